@@ -250,11 +250,11 @@ def shards(tier):
                 continue
             if q and variant == 3 and o1 not in (0, 2):
                 continue
-            if q and variant == 7 and o1 not in (0, 2):
+            if q and variant == 7 and o1 != 0:
                 continue
             if q and variant == 2 and o1 not in (0, 2, 4, 5):
                 continue
-            if q and variant == 1 and o1 not in (0, 2, 3):
+            if q and variant == 1 and o1 not in (0, 3):
                 continue
             if q and variant == 0 and o1 not in (0, 1, 2):
                 continue
